@@ -352,6 +352,77 @@ Section Oracles.
   Qed.
 End Oracles.
 
+(* ---------- the fuel of the model never runs out; an empty filter list ---------- *)
+
+Lemma emit_fuel pre r : emit pre r = Fuel -> r = Fuel.
+Proof. destruct r; cbn [emit]; congruence. Qed.
+
+Lemma finish_no_fuel buf cnt : finish buf cnt <> Fuel.
+Proof. unfold finish. destruct cnt; [discriminate|]. destruct (pad _ _); discriminate. Qed.
+
+Lemma a85_loop_no_fuel : forall input buf cnt, loop input buf cnt <> Fuel.
+Proof.
+  induction input as [|ch input IH]; intros buf cnt; cbn [loop]; [apply finish_no_fuel|].
+  destruct (byte_eqb ch A85_Z).
+  - destruct cnt; [|discriminate]. intro H. apply emit_fuel in H. exact (IH _ _ H).
+  - destruct (is_skipped ch); [apply IH|].
+    destruct (negb (in_digit_range ch)); [apply finish_no_fuel|].
+    destruct (accum _ _); [|discriminate].
+    destruct (Nat.eqb _ _); [|apply IH]. intro H. apply emit_fuel in H. exact (IH _ _ H).
+Qed.
+
+Lemma decode_row_no_fuel t bpp prev cur : decode_row t bpp prev cur <> Fuel /\ forall e, decode_row t bpp prev cur <> Err e.
+Proof. unfold decode_row. destruct (_ && _); split; try discriminate; intro; discriminate. Qed.
+
+Lemma frame_go_no_fuel bpp bpr : forall fuel prev content,
+  length content <= fuel -> frame_go fuel bpp bpr prev content <> Fuel.
+Proof.
+  induction fuel as [|fuel IH]; intros prev content Hl; destruct content as [|f rest]; cbn [frame_go]; try discriminate.
+  - cbn [length] in Hl. lia.
+  - cbn [length] in Hl.
+    destruct (ftype_of_N _); [|discriminate]. destruct (N.ltb _ _); [discriminate|].
+    destruct (decode_row_no_fuel f0 bpp (match prev with Some p => p | None => repeat x00 (N.to_nat bpr) end)
+                                 (firstn (N.to_nat bpr) rest)) as [H1 H2].
+    destruct (decode_row _ _ _ _) as [row|e| |]; try discriminate; [|congruence].
+    intro H. apply emit_fuel in H. revert H. apply IH.
+    rewrite skipn_length. lia.
+Qed.
+
+Theorem decode_frame_no_fuel content bpp ppr : decode_frame content bpp ppr <> Fuel.
+Proof. unfold decode_frame. destruct (N.ltb _ _); [discriminate|]. apply frame_go_no_fuel. apply le_n. Qed.
+
+Lemma decompress_predictor_no_fuel data p : decompress_predictor data p <> Fuel.
+Proof.
+  unfold decompress_predictor. destruct p; [|discriminate].
+  destruct (_ && _); [|discriminate]. cbv zeta. destruct (N.ltb _ _); [discriminate|]. apply decode_frame_no_fuel.
+Qed.
+
+Lemma filters_no_fuel d : filters d <> Fuel /\ filters d <> Panic.
+Proof.
+  assert (N : forall l, names_of l <> Fuel /\ names_of l <> Panic).
+  { induction l as [|o l [I1 I2]]; cbn [names_of]; [split; discriminate|].
+    destruct o; try (split; discriminate). destruct (names_of l); split; congruence. }
+  unfold filters. destruct (dict_get d K_Filter) as [[]|]; try (split; discriminate). apply N.
+Qed.
+
+Theorem decompressed_content_no_fuel inflate lzw s : decompressed_content inflate lzw s <> Fuel.
+Proof.
+  assert (L : forall d fs index input output, decode_loop inflate lzw d fs index input output <> Fuel).
+  { intros d. induction fs as [|f fs IH]; intros index input output; cbn [decode_loop]; [discriminate|].
+    assert (decode_one inflate lzw f (params_for d index) input <> Fuel) as H1.
+    { unfold decode_one. destruct (bytes_eqb f F_FLATE); [apply decompress_predictor_no_fuel|].
+      destruct (bytes_eqb f F_LZW); [apply decompress_predictor_no_fuel|].
+      destruct (bytes_eqb f F_A85); [apply a85_loop_no_fuel | discriminate]. }
+    destruct (decode_one _ _ _ _ _); try congruence; apply IH. }
+  unfold decompressed_content. destruct (filters_no_fuel (s_dict s)) as [F1 F2].
+  destruct (filters (s_dict s)); try congruence; apply L.
+Qed.
+
+(* a Filter entry that is an empty array: the plain content is the content itself *)
+Theorem plain_empty_filters inflate lzw s :
+  dict_get (s_dict s) P_Filter = Some (OArr []) -> get_plain_content inflate lzw s = Ok (s_content s).
+Proof. intro H. unfold get_plain_content, filters. change K_Filter with P_Filter. rewrite H. reflexivity. Qed.
+
 (* ---------- the pinned behaviour ---------- *)
 
 (* f51f21b: Average filter, one byte per pixel, row [8; 19] over [10; 20] *)
